@@ -130,9 +130,14 @@ fn build_mem(t: &Tree) -> Memfs {
         }
     }
     // links last so that their recorded kind is the kind of the (existing) target
-    for (p, n) in t {
-        if let Node::Link(tg) = n {
-            m.symlink(p, tg).unwrap();
+    for pass in 0..2 {
+        for (p, n) in t {
+            if let Node::Link(tg) = n {
+                let to_link = matches!(t.get(tg), Some(Node::Link(_)));
+                if (pass == 1) == to_link {
+                    m.symlink(p, tg).unwrap();
+                }
+            }
         }
     }
     m
@@ -328,6 +333,27 @@ fn main() {
         linked.extend(with_one_link(t, &names));
     }
     trees.extend(linked);
+    // --chains (C10): instead, trees with a second link that points to the first link (a chain), queries on the new link only
+    let chains = flag("chains");
+    let mut chain_links: Vec<String> = vec![];
+    if chains {
+        let mut ct = vec![];
+        for t in trees.iter().skip(linkfree) {
+            let (l1, _) = t.iter().find(|(_, n)| matches!(n, Node::Link(_))).map(|(p, n)| (p.clone(), n.clone())).unwrap();
+            for slot in ["/a", "/b", "/a/a", "/a/b", "/b/a", "/b/b"] {
+                let par = parent(slot);
+                if t.contains_key(slot) || !(par == "/" || matches!(t.get(&par), Some(Node::Dir))) {
+                    continue;
+                }
+                let mut t2 = t.clone();
+                t2.insert(slot.to_string(), Node::Link(l1.clone()));
+                ct.push(t2);
+                chain_links.push(slot.to_string());
+                break;
+            }
+        }
+        trees = ct;
+    }
     eprintln!("grid: {} link-free trees, {} trees with one link", linkfree, trees.len() - linkfree);
     // call alphabet
     let mut calls: Vec<Value> = vec![];
@@ -377,6 +403,7 @@ fn main() {
             }
         }
         let t = &t1;
+        let only: Option<&String> = if chains { chain_links.get(ti) } else { None };
         build_std(&root, t);
         std::env::set_current_dir(&root).unwrap();
         let tree_rep = observe(&root);
@@ -390,6 +417,13 @@ fn main() {
             let (a, b) = (s(&c["a"]), s(&c["b"]));
             if through_link(t, &a) || (!b.is_empty() && through_link(t, &b)) {
                 continue; // outside C02's domain
+            }
+            if let Some(l2) = only {
+                // chain trees: only what C10 states about a link - queries on the link that points to a link
+                let q = ["exists", "is_dir", "is_file", "is_symlink", "is_symlink_dir", "is_symlink_file", "readlink", "readlink_abs", "entry", "mode"];
+                if &a != l2 || !q.contains(&c["op"].as_str().unwrap()) {
+                    continue;
+                }
             }
             // copy with follow(true): only the documented use - the source itself is the link (DESIGN A24: where entries
             // reached through links BELOW a followed source are placed is an open question on both backends)
